@@ -1492,6 +1492,27 @@ impl<'a> Sem<'a> {
                     let r = self.ident(&n, Role::Override(d));
                     self.p.decls[d].overridden = true;
                     self.p.lets.push(LetInfo { file: self.cur, name_range: r, field_ty: ty.clone(), field_name: n.clone(), owner, doc: ldoc });
+                    // a bits field may be overridden a few bits at a time: `let f{3-0} = v;`, `let f{7} = b;`
+                    // (the value then has the width of the selection)
+                    let mut ty = ty;
+                    if let Ty::Bits(w) = ty.clone() {
+                        if self.rng.chance(1, 2) && self.on("bit-range-let") {
+                            let width = 1 + self.rng.below(w.min(4));
+                            let lo = self.rng.below(w - width + 1);
+                            let hi = lo + width - 1;
+                            if width == 1 {
+                                self.w(&format!("{{{lo}}}"));
+                                ty = Ty::Bit;
+                            } else {
+                                match self.rng.below(3) {
+                                    0 => self.w(&format!("{{{hi}-{lo}}}")),
+                                    1 => self.w(&format!("{{{hi}...{lo}}}")),
+                                    _ => self.w(&format!("{{{}}}", (lo..=hi).rev().map(|b| b.to_string()).collect::<Vec<_>>().join(", "))),
+                                }
+                                ty = Ty::Bits(width);
+                            }
+                        }
+                    }
                     self.w(" = ");
                     // `let f = f` is rejected by TableGen (self-assignment): hide the field itself
                     let saved = self.rec_fields.clone();
